@@ -1,11 +1,16 @@
 import Rg.Proto
 import Rg.Model.Macro
+import Rg.Model.MacroLit
 /-!
 Driver engine for C18 (macro expansion).
 
 expr := (id NAME) | (lit KIND HEX) | (paren e) | (sel e NAME) | (idx e e) | (call e e*) | (un OP e) | (bin OP e e)
 ops: `c18expand_asis MATCHER (ps NAME*) (as expr*) body` / `c18expand …` → `ok expr` | `badarg i` | `toomany` | `panic kind`
      `c18inline (ps NAME*) (as expr*) body` → `expr`
+     `c18retype KIND HEX UNQ` (UNQ := n | HEX of strconv.Unquote's result prefixed by `u`) → `n` | `(s HEX)` | `(i INT)` | `big` | `o`
+         the types.Info entry expandMacro re-creates for a copied basic literal
+     `c18group stmt*`  stmt := (define NAME) | (definebad) | (assign NAME) | (decl) | (rule NAME*) | (other)
+         → `ok` (then, per rule, the 0-based statement index each called name resolves to, `-` = no helper) | `err`
 -/
 namespace Drv.MacroE
 open Proto Macro
@@ -54,7 +59,44 @@ def parse3 (fs : List String) : Option (List String × List GExpr × GExpr) := d
   | [ps, as, body] => pure (← decNames ps, ← decArgs as, ← dec body)
   | _ => none
 
+def showCV : Conv.CV → String
+  | .none => "n"
+  | .str b => "(s " ++ hexOfBytes b ++ ")"
+  | .int n => "(i " ++ toString n ++ ")"
+  | .intBig => "big"
+  | .other => "o"
+
+def decStmts : List SExp → Nat → Option (List MacroLit.Stmt)
+  | [], _ => some []
+  | s :: rest, i => do
+    let st ← (match s with
+      | .list [.atom "define", .atom n] => some (MacroLit.Stmt.define n [] (.ident (toString i)))
+      | .list [.atom "definebad"] => some .defineBad
+      | .list [.atom "assign", .atom n] => some (.assign n [] (.ident (toString i)))
+      | .list [.atom "decl"] => some .decl
+      | .list (.atom "rule" :: ns) => (ns.mapM (fun (x : SExp) => match x with | .atom n => some n | _ => none)).map MacroLit.Stmt.rule
+      | .list [.atom "other"] => some .other
+      | _ => none)
+    let r ← decStmts rest (i + 1)
+    pure (st :: r)
+
+def showResolved (d : Option MacroLit.MacroDef) : String :=
+  match d with
+  | some ⟨_, _, .ident i⟩ => i
+  | _ => "-"
+
 def handle : List String → Option String
+  | ["c18retype", kind, h, u] => do
+    let text ← bytesOfHex h
+    let unq ← (if u == "n" then some none else
+      if u.startsWith "u" then (bytesOfHex (u.drop 1).toString).map some else none)
+    pure (showCV (MacroLit.retype kind (text.map (·.toNat)) unq))
+  | "c18group" :: fs => do
+    let ss ← parseSExps (tokenize (" ".intercalate fs))
+    let stmts ← decStmts ss 0
+    pure (match MacroLit.groupLoop [] stmts with
+      | none => "err"
+      | some out => " ".intercalate ("ok" :: out.map (fun r => "(" ++ ",".intercalate (r.map showResolved) ++ ")")))
   | "c18expand_asis" :: m :: fs => do
     let (ps, as, body) ← parse3 fs
     pure (showOutcome (expandAsIs m ps as body))
